@@ -431,6 +431,14 @@ def r5_weights(ctx):
               "returns the weights", "returns something else")
 
 
+def r6_container_reader(ctx):
+    """export_training_set computes its features from curves that
+    load_hdf5 rebuilds: writer and reader tables of the container must
+    agree (shared with C16-R1)."""
+    from .c16 import r1_tables_agree
+    r1_tables_agree(ctx)
+
+
 RULES = [
     ("C15-R1", "row filters applied to samples and response alike; NaN-row "
      "mask elementwise", r1_row_alignment),
@@ -441,4 +449,6 @@ RULES = [
     ("C15-R4", "export and load tables agree; same snapshot",
      r4_export_load),
     ("C15-R5", "class-balanced weights by shape", r5_weights),
+    ("C15-R6", "curves rebuilt from a rating container (the source of an "
+     "export) carry every stored column and setting", r6_container_reader),
 ]
